@@ -1721,8 +1721,18 @@ def split_new_tuple_locals(trees, inv):
                 n_el = arity.pop()
                 subs = [x for x in ast.walk(fn) if isinstance(x, ast.Subscript) and isinstance(x.value, ast.Name) and x.value.id == nm and isinstance(x.ctx, ast.Load)
                         and isinstance(x.slice, ast.Constant) and type(x.slice.value) is int and 0 <= x.slice.value < n_el]
-                if len(subs) != len(loads) or any("%s_%d" % (nm, k) in bound for k in range(n_el)):
+                stars = [c for c in ast.walk(fn) if isinstance(c, ast.Call) and any(isinstance(a, ast.Starred) and isinstance(a.value, ast.Name) and a.value.id == nm for a in c.args)]
+                n_star = sum(1 for c in stars for a in c.args if isinstance(a, ast.Starred) and isinstance(a.value, ast.Name) and a.value.id == nm)
+                if len(subs) + n_star != len(loads) or any("%s_%d" % (nm, k) in bound for k in range(n_el)):
                     continue
+                for c in stars:
+                    na = []
+                    for a in c.args:
+                        if isinstance(a, ast.Starred) and isinstance(a.value, ast.Name) and a.value.id == nm:
+                            na += [ast.copy_location(ast.Name(id="%s_%d" % (nm, k), ctx=ast.Load()), a) for k in range(n_el)]
+                        else:
+                            na.append(a)
+                    c.args = na
 
                 class S(ast.NodeTransformer):
                     def visit_Subscript(self, x):
@@ -2113,6 +2123,105 @@ def enumerate_index_only(trees, inv):
     return notes
 
 
+def truth_of_filtered_literals(trees, inv):
+    """`missing = [k for k in ("a", "b", z) if k not in D]` ... `if missing:`: a new local bound once to a comprehension that filters a short
+    literal sequence is, where only its truth is asked, the disjunction of the filter over the elements"""
+    notes = []
+    for mod, t in trees.items():
+        for scope, owner, fn in list(scopes(t)):
+            q = (scope + "." if scope else "") + fn.name
+            new = genuinely_new_locals(fn, mod, q, inv)
+            if not new:
+                continue
+            stored = {}
+            for y in ast.walk(fn):
+                if isinstance(y, ast.Name) and isinstance(y.ctx, (ast.Store, ast.Del)):
+                    stored[y.id] = stored.get(y.id, 0) + 1
+            done = []
+            for a in [x for x in ast.walk(fn) if isinstance(x, ast.Assign)]:
+                if not (len(a.targets) == 1 and isinstance(a.targets[0], ast.Name) and a.targets[0].id in new and stored.get(a.targets[0].id) == 1
+                        and isinstance(a.value, ast.ListComp) and len(a.value.generators) == 1):
+                    continue
+                g = a.value.generators[0]
+                if not (isinstance(g.target, ast.Name) and isinstance(g.iter, (ast.Tuple, ast.List)) and 1 <= len(g.iter.elts) <= 8 and g.ifs
+                        and all(_pure_path(e) for e in g.iter.elts) and all(_effect_free(c) for c in g.ifs)):
+                    continue
+                free = {y.id for c in g.ifs for y in ast.walk(c) if isinstance(y, ast.Name)} | {y.id for e in g.iter.elts for y in ast.walk(e) if isinstance(y, ast.Name)}
+                free.discard(g.target.id)
+                if any(stored.get(f, 0) > 0 for f in free):
+                    continue
+                nm = a.targets[0].id
+                terms = []
+                for e in g.iter.elts:
+                    class S(ast.NodeTransformer):
+                        def visit_Name(self, n):
+                            if n.id == g.target.id and isinstance(n.ctx, ast.Load):
+                                return ast.copy_location(_clone(e), n)
+                            return n
+                    cs = [S().visit(_clone(c)) for c in g.ifs]
+                    terms.append(cs[0] if len(cs) == 1 else ast.BoolOp(op=ast.And(), values=cs))
+                disj = terms[0] if len(terms) == 1 else ast.BoolOp(op=ast.Or(), values=terms)
+                hit = 0
+                for x in ast.walk(fn):
+                    if isinstance(x, (ast.If, ast.While, ast.IfExp)):
+                        if isinstance(x.test, ast.Name) and x.test.id == nm:
+                            x.test = ast.copy_location(_clone(disj), x.test)
+                            hit += 1
+                        elif isinstance(x.test, ast.UnaryOp) and isinstance(x.test.op, ast.Not) and isinstance(x.test.operand, ast.Name) and x.test.operand.id == nm:
+                            x.test.operand = ast.copy_location(_clone(disj), x.test.operand)
+                            hit += 1
+                if hit:
+                    done.append(nm)
+            if done:
+                ast.fix_missing_locations(fn)
+                notes.append("truth of a filtered literal sequence written as the disjunction it is in %s: %s" % (q, ", ".join(done)))
+    return notes
+
+
+def drop_guards_of_the_lookup_that_follows(trees, inv):
+    """`if k not in D: raise KeyError(..)` directly before a statement that evaluates `D[k]` unconditionally says (with a better message) what
+    the lookup says itself: the guard is dropped.  Only in functions the inventory does not know or that did not have the guard."""
+    notes = []
+    for mod, t in trees.items():
+        for scope, owner, fn in list(scopes(t)):
+            n = 0
+            for blk_owner in list(ast.walk(fn)):
+                for fld in ("body", "orelse", "finalbody"):
+                    blk = getattr(blk_owner, fld, None)
+                    if not (isinstance(blk, list) and blk and isinstance(blk[0], ast.stmt)):
+                        continue
+                    i = 0
+                    while i + 1 < len(blk):
+                        st, nxt = blk[i], blk[i + 1]
+                        hit = False
+                        if isinstance(st, ast.If) and not st.orelse and len(st.body) == 1 and isinstance(st.body[0], ast.Raise) and st.body[0].exc is not None:
+                            exc = st.body[0].exc
+                            cls_ = exc.func if isinstance(exc, ast.Call) else exc
+                            tst = st.test
+                            neg = False
+                            if isinstance(tst, ast.UnaryOp) and isinstance(tst.op, ast.Not):
+                                tst, neg = tst.operand, True
+                            if isinstance(cls_, ast.Name) and cls_.id == "KeyError" and isinstance(tst, ast.Compare) and len(tst.ops) == 1 \
+                                    and isinstance(tst.ops[0], ast.In if neg else ast.NotIn) and _pure_path(tst.left) and _pure_path(tst.comparators[0]) \
+                                    and (not isinstance(exc, ast.Call) or all(_effect_free(a) for a in exc.args)):
+                                want = ast.dump(ast.Subscript(value=tst.comparators[0], slice=tst.left, ctx=ast.Load()))
+                                val = nxt.value if isinstance(nxt, (ast.Return, ast.Assign, ast.Expr)) else None
+                                if val is not None:
+                                    if ast.dump(val) == want:
+                                        hit = True
+                                    elif isinstance(val, ast.Call) and not any(isinstance(a, ast.Starred) for a in val.args) and _pure_path(val.func) \
+                                            and any(ast.dump(a) == want for a in val.args) and all(_effect_free(a) for a in val.args) and all(_effect_free(k.value) for k in val.keywords):
+                                        hit = True
+                        if hit:
+                            del blk[i]
+                            n += 1
+                            continue
+                        i += 1
+            if n:
+                notes.append("KeyError guard of the lookup that follows it dropped in %s" % fn.name)
+    return notes
+
+
 def fromkeys_to_dictcomps(trees, inv):
     """`d = dict.fromkeys(IT[, V])` is `{k: V for k in IT}` (first-seen order, duplicates collapse): written as the comprehension so
     that the comprehension passes below see it.  Only as the whole right-hand side of a local's assignment."""
@@ -2234,6 +2343,8 @@ def canonicalise(trees, specialise=True):
         _, news = detect_function_renames(trees, inv)
     notes += new_context_managers_to_try(trees, inv)
     notes += enumerate_index_only(trees, inv)
+    notes += truth_of_filtered_literals(trees, inv)
+    notes += drop_guards_of_the_lookup_that_follows(trees, inv)
     notes += fromkeys_to_dictcomps(trees, inv)
     notes += listcomps_to_loops(trees, inv)
     notes += next_scans_to_loops(trees, inv)
